@@ -7,7 +7,7 @@ import traceback
 
 import numpy as np
 
-from .. import boundgen
+from .. import boundgen, env
 
 ID = 'C07'
 LEVEL = 'exploration'
@@ -191,6 +191,8 @@ def run_case(spec):
         else:
             check_samples(8000)
     except Exception as e:
+        if not env.from_code_under_test(e):
+            raise          # harness error: never folded into 'skipped'
         tb = traceback.format_exc()[-1500:]
         return {'status': 'skipped', 'reason': 'raise outside the property: %r' % e, 'traceback': tb, 'obs': obs}
     finally:
